@@ -13,19 +13,16 @@
      conn_fib / pad_run / export_fib add_connector_loss, add_fiber_padding on one span, Fiber.to_json + reload
      run_dsl c r                     the design_span_loss that add_fiber_padding caches for the amplifier design
 
-   FULL STATEMENT (redesign_fixpoint), not proved as one theorem:
-     for every line x and configuration with EOL = 0 whose fibre lengths / loss coefficients lie on the export grid,
-     export (design (load x1)) = x1 for x1 = export (design x), fibres and amplifiers, power mode and gain mode.
-   What is proved instead (each for all inputs):
-     C17_redesign_fixpoint_partial  amplifier side, power mode, any OMS, given equal span contexts
-     C17_connectors_stable, C17_padding_stable, C17_export_idempotent, C17_span_loss_cache(_stable)
-                                    fibre side element by element / span by span: these are what make the span
-                                    contexts of the two rounds equal
-   Missing: the composition over a whole line (that the spans of the reloaded line are the exported spans: needs
-   split_fiber idempotence and `runs` of an exported chain) and the gain-mode amplifier side, where the exported
-   gain_target is the rounded one and equality holds only up to that rounding.  Both are covered by the
-   correspondence / oracle of the check, not by proof. *)
-From Verif Require Import Prelude Model.Chain Model.Redesign Proofs.Chain Proofs.Redesign.
+   FULL STATEMENT (redesign_fixpoint): proved as C17_redesign_line_fixpoint for a whole line (fibres, fused, inserted
+   and user amplifiers with their settings) in power mode with EOL = 0 and no Raman fibre, under checkable conditions
+   on the first design: designed fibres on the export grid (grid_ok) and strictly below max_length once exported
+   (short_ok), distinct amplifier uids.  Not covered by that theorem: a span whose exported length equals max_length
+   exactly (needs idempotence of calculate_new_length at the boundary), Raman spans (the estimate is an input), and
+   the composition for gain mode, where C17_gain_mode_rounding / C17_gain_mode_exact give the amplifier side:
+   equality of everything but gain_target, gain_target within (k + 4) half-units of the 6th decimal for the k-th
+   amplifier of the OMS, exact equality when the designed gains lie on the export grid.  Those remaining cases are
+   covered by the correspondence / oracle of the check. *)
+From Verif Require Import Prelude Model.Chain Model.Redesign Proofs.Chain Proofs.Redesign Proofs.RedesignLine.
 From Coq Require Import QArith Lia.
 Open Scope Z_scope.
 
@@ -35,6 +32,52 @@ Theorem C17_redesign_fixpoint_partial : forall s lib sel items D D2 outs, pm_ok 
   exists outs', design_amps s lib sel D2 (reload items outs) = Ok outs' /\ map export_amp outs' = map export_amp outs.
 Proof. exact design_amps_fix. Qed.
 Print Assumptions C17_redesign_fixpoint_partial.
+
+(* the whole line: export (design (load (export (design x)))) = export (design x), elements and amplifier settings *)
+Theorem C17_redesign_line_fixpoint : forall c s lib sel rgain opsf D0 ptot x L1 outs1,
+  pm_ok s lib -> (c_eol c == 0)%Q -> c_min c <= c_max c -> no_auto (l_els x) -> (forall n, i_name (opsf n) = n) ->
+  design_full c s lib sel rgain opsf D0 ptot x = Ok (L1, outs1) ->
+  l_els L1 <> [] -> Forall grid_ok (l_els L1) -> Forall (short_ok c) (export_els (l_els L1)) ->
+  has_raman (l_els L1) = false -> NoDup (map o_name outs1) ->
+  exists r2, design_full c s lib sel rgain (ops_of (snd (export_full (L1, outs1)))) D0 ptot
+                         (reload_full x (export_full (L1, outs1))) = Ok r2 /\
+             export_full r2 = export_full (L1, outs1).
+Proof. exact redesign_line_fixpoint. Qed.
+Print Assumptions C17_redesign_line_fixpoint.
+(* its fibre side alone (either mode): the reloaded line is designed into itself *)
+Theorem C17_redesign_line_fibres : forall c x L1, (c_eol c == 0)%Q -> c_min c <= c_max c -> no_auto (l_els x) ->
+  design_line c x = Ok L1 -> l_els L1 <> [] -> Forall grid_ok (l_els L1) -> Forall (short_ok c) (export_els (l_els L1)) ->
+  design_line c (with_els x (export_els (l_els L1))) = Ok (with_els x (conn c (export_els (l_els L1)))) /\
+  export_els (conn c (export_els (l_els L1))) = export_els (l_els L1).
+Proof. intros c x L1 H0 Hc Hn H Hne Hg Hs. destruct (fibre_round c x L1 H0 Hc Hn H Hne Hg Hs) as [A _ _ B _ _]. split; assumption. Qed.
+Print Assumptions C17_redesign_line_fibres.
+
+(* gain mode: the redesign of the exported OMS reproduces everything but gain_target exactly; the k-th gain lies
+   within (e + 2 hh) below / hh above the designed one with e = k hh, hh = half a unit of the 6th decimal *)
+Theorem C17_gain_mode_rounding : forall s lib sel l D D2 outs e,
+  s_pm s = false -> lib ""%string = None -> Forall inv_ok l -> (0 <= e)%Q -> (- e <= D2 - D)%Q -> (D2 - D <= e)%Q ->
+  design_amps s lib sel D l = Ok outs ->
+  exists outs', design_amps s lib sel D2 (reload l outs) = Ok outs' /\ gm_close e outs outs'.
+Proof. exact design_amps_gain_mode. Qed.
+Print Assumptions C17_gain_mode_rounding.
+Theorem C17_gain_mode_export : forall e o o',
+  (- (e + 2 * hh) <= o_gain o' - o_gain o)%Q -> (o_gain o' - o_gain o <= hh)%Q ->
+  o_name o' = o_name o -> o_var o' = o_var o -> o_dp o' = None -> o_dp o = None ->
+  (o_voa o' == o_voa o)%Q -> (o_invoa o' == o_invoa o)%Q -> o_tilt o' = round_dec 5 (o_tilt o) ->
+  i_name (export_amp o') = i_name (export_amp o) /\ i_var (export_amp o') = i_var (export_amp o) /\
+  i_dp (export_amp o') = i_dp (export_amp o) /\ i_tilt (export_amp o') = i_tilt (export_amp o) /\
+  i_voa (export_amp o') = i_voa (export_amp o) /\ i_invoa (export_amp o') = i_invoa (export_amp o) /\
+  exists g g', i_gain (export_amp o) = Some g /\ i_gain (export_amp o') = Some g' /\
+               (- (e + 4 * hh) <= g' - g)%Q /\ (g' - g <= 3 * hh)%Q.
+Proof. exact gm_close_export. Qed.
+Print Assumptions C17_gain_mode_export.
+(* gain mode, designed gains on the export grid: exact *)
+Theorem C17_gain_mode_exact : forall s lib sel l D D2 outs,
+  s_pm s = false -> lib ""%string = None -> Forall inv_ok l -> (D2 == D)%Q ->
+  design_amps s lib sel D l = Ok outs -> Forall (fun o => (round_dec 6 (o_gain o) == o_gain o)%Q) outs ->
+  exists outs', design_amps s lib sel D2 (reload l outs) = Ok outs' /\ map export_amp outs' = map export_amp outs.
+Proof. exact design_amps_gain_mode_exact. Qed.
+Print Assumptions C17_gain_mode_exact.
 
 (* any number of rounds *)
 Theorem C17_n_rounds : forall s lib sel D ctxs ins j1 n, pm_ok s lib -> length ctxs = length ins ->
@@ -107,6 +150,19 @@ Proof. exact nli_roundtrip. Qed.
 Print Assumptions C17_params_roundtrip_nli.
 
 (* ---- non-vacuity ---- *)
+Example C17_ex_line_hyps : exists L1 outs1,
+  design_full exl_cfg ex_s ex_lib ex_sel (fun _ => 0%Q) (ops_of []) (-20) (198 # 10) exl_line = Ok (L1, outs1) /\
+  pm_ok ex_s ex_lib /\ (c_eol exl_cfg == 0)%Q /\ c_min exl_cfg <= c_max exl_cfg /\ no_auto (l_els exl_line) /\
+  (forall n, i_name (ops_of [] n) = n) /\
+  l_els L1 <> [] /\ Forall grid_ok (l_els L1) /\ Forall (short_ok exl_cfg) (export_els (l_els L1)) /\
+  has_raman (l_els L1) = false /\ NoDup (map o_name outs1) /\
+  map o_name outs1 = ["Edfa_booster_A_to_f1"; "Edfa_f1"; "Edfa_preamp_B_from_f2"]%string.
+Proof. exact exl_hyps. Qed.
+Example C17_ex_gain_mode : exists outs outs',
+  design_amps (mkS false (-2) 3 (1 # 2) (3 # 10) 20 1 (1 # 2) (5 # 2)) ex_lib ex_sel (-20) ex_items = Ok outs /\
+  design_amps (mkS false (-2) 3 (1 # 2) (3 # 10) 20 1 (1 # 2) (5 # 2)) ex_lib ex_sel (-20) (reload ex_items outs) = Ok outs' /\
+  map export_amp outs' = map export_amp outs /\ Forall inv_ok ex_items /\ length outs = 3%nat.
+Proof. exact ex_gain_mode. Qed.
 Example C17_ex_pm_ok : pm_ok ex_s ex_lib.
 Proof. exact ex_pm_ok. Qed.
 Example C17_ex_round : exists j1, amp_round ex_s ex_lib ex_sel (-20) (map fst ex_items) (map snd ex_items) = Ok j1 /\
